@@ -198,7 +198,7 @@ def gen_phase2(c, cat, cases1, impl1):
     chosen = []
     for ty, bs in sorted(per_ty.items()):
         if full:
-            chosen += bs if ty in NUM else bs[:12]
+            chosen += r.sample(bs, min(len(bs), 24 if ty in NUM else 8))
         else:
             chosen += r.sample(bs, min(len(bs), 3 if ty in NUM else 2))
     small_done = False
